@@ -5,7 +5,9 @@ Four specifications under spec/grid (all checked exhaustively by TLC, then bound
   hex     HexLattice(_mc)   walk over all cells within N rings x 2 orientations + counting cases
   cart    CartLattice(_mc)  walk over all cells within R rings x 2 centre variants + counting cases
   nested  Nested(_mc)       every nesting of 5 grid kinds up to three deep on real Composite objects
-  reduce  Reduce(_mc)       one grid object: changePitch / offset / rebuild-from-reduce() histories, incl. bounds grids
+  reduce  Reduce(_mc)       one grid object (built from floats, from ints, or by the constructor with int unit steps):
+                            changePitch / offset / backUp / restoreBackup / rebuild-from-reduce() histories, a reduce()
+                            tuple and a twin grid taken earlier must stay untouched; incl. axial and theta-R-Z bounds grids
 
 For every part: (1) exhaustive TLC run of the invariants; (2) emission run (one JSON line per explored edge and per
 distinct state, expected observations evaluated by TLC); (3) every edge (s, a, t) is executed on the real armi
